@@ -127,7 +127,7 @@ class _Slice:
 
 
 def run_cases(modname, cases, parallel=12, case_timeout=60, group=None, scratch=None, quiet=False,
-              budget_s=None):
+              budget_s=None, stop_after_violations=None, is_known=lambda mech: False):
     """Execute all cases; returns list of result dicts (one per case that produced a result) and
     a list of cids that produced none (runner died)."""
     n = len(cases)
@@ -146,6 +146,7 @@ def run_cases(modname, cases, parallel=12, case_timeout=60, group=None, scratch=
     t_begin = time.monotonic()
     env = _env()
     seq = 0
+    n_viol = 0
     log_path = os.path.join(scratch, 'children.log')
     logf = open(log_path, 'ab')
 
@@ -211,6 +212,10 @@ def run_cases(modname, cases, parallel=12, case_timeout=60, group=None, scratch=
                 got = harvest(sl)
                 for r in got:
                     results[r['cid']] = r
+                    n_viol += sum(1 for v in (r.get('violations') or []) if not is_known(v.get('mech')))
+                if stop_after_violations and n_viol >= stop_after_violations and pending:
+                    # enough witnesses: the verdict is already "violated"; do not grind through the rest
+                    pending.clear()
                 done = {r['cid'] for r in got}
                 cids = [cases[i]['cid'] for i in range(sl.start, sl.stop)]
                 if rc != 0:
@@ -263,11 +268,12 @@ def main(argv=None):
 
     parallel = args.parallel or getattr(mod, 'PARALLEL', 12)
     case_timeout = getattr(mod, 'CASE_TIMEOUT', 60)
+    known, fixed = load_known()
     results, lost, scratch, log_path = run_cases(
         modname, cases, parallel=parallel, case_timeout=case_timeout, group=getattr(mod, 'GROUP', None),
-        budget_s=getattr(mod, 'BUDGET', {}).get(tier))
-
-    known, fixed = load_known()
+        budget_s=getattr(mod, 'BUDGET', {}).get(tier),
+        stop_after_violations=int(os.environ.get('VERIF_STOP_AFTER', getattr(mod, 'STOP_AFTER_VIOLATIONS', 40))),
+        is_known=lambda mech: (pid, mech) in known)
     by_cid = {c['cid']: c for c in cases}
     violations = []
     known_hits = {}
@@ -412,4 +418,12 @@ def main(argv=None):
 
 
 if __name__ == '__main__':
-    sys.exit(main())
+    try:
+        rc = main()
+    except SystemExit:
+        raise
+    except BaseException:  # noqa: BLE001  a crash of the harness is never a verdict on the property
+        traceback.print_exc()
+        print('INCONCLUSIVE: harness crashed')
+        rc = 2
+    sys.exit(rc)
